@@ -173,8 +173,38 @@ def register(api):
         chars["TXT_ENTRY_SEP"] = m.group(1)
         m = need(re.search(r"rest\.starts_with\('(.)'\)", fn), "parse_txt_payload list separator")
         chars["TXT_LIST_SEP"] = m.group(1)
+        # record layer: character-strings joined with no separator, strict UTF-8, version prefix stripped,
+        # failed records collected and skipped, error only when nothing valid is left
+        fn = body_of(txt, r"fn txt_record_to_string\(txt: &TXT\)[^{]*\{", "txt_record_to_string")
+        need(re.search(r"\.txt_data\(\)\s*\.iter\(\)\s*\.flat_map\(\|chunk\| chunk\.iter\(\)\)\s*\.copied\(\)\s*\.collect\(\)", fn),
+             "txt_record_to_string: character-strings concatenated without separator")
+        if "from_utf8_lossy" in fn:
+            raise E("txt_record_to_string decodes lossily (model: strict String::from_utf8)")
+        m = need(re.search(r'String::from_utf8\(bytes\)\s*\.map_err\(\|_\| InvalidEntry::new\("([^"]*)",', fn),
+                 "txt_record_to_string: strict String::from_utf8 with an InvalidEntry on failure")
+        chars["TXT_INVALID_UTF8_RAW"] = m.group(1)
+        vals["TXT_UTF8_STRICT"] = 1
+        fn = body_of(txt, r"fn resolve_txt_records_with_invalid\([^{]*\{", "resolve_txt_records_with_invalid")
+        need(re.search(r"let Some\(payload\) = record\.strip_prefix\(SCION_TXT_PREFIX\) else \{\s*continue;\s*\};", fn),
+             "resolve_txt_records_with_invalid: records without the prefix are skipped")
+        need(re.search(r"match parse_txt_payload\(payload\) \{\s*Ok\(mut addresses\) => valid\.append\(&mut addresses\),\s*"
+                       r"Err\(err\) => invalid\.push\(InvalidEntry::new\(record, err\.to_string\(\)\)\),\s*\}", fn),
+             "resolve_txt_records_with_invalid: valid appended in order, failed record collected")
+        need(re.search(r"if valid\.is_empty\(\) \{\s*return Err\(ResolveError::NoValidEntries \{", fn),
+             "resolve_txt_records_with_invalid: NoValidEntries only when no address is left")
+        need(re.search(r"Ok\(valid\)\s*$", fn.strip()), "resolve_txt_records_with_invalid: returns the valid addresses")
+        rs = body_of(txt, r"async fn resolve\(&self, domain: &str\)[^{]*\{", "ScionTxtDnsResolver::resolve")
+        need(re.search(r"for txt in lookup\.iter\(\) \{\s*match txt_record_to_string\(txt\) \{\s*Ok\(txt_record\) => txt_records\.push\(txt_record\),\s*"
+                       r"Err\(err\) => invalid_entries\.push\(err\),\s*\}\s*\}\s*resolve_txt_records_with_invalid\(domain, txt_records, invalid_entries\)", rs),
+             "ScionTxtDnsResolver::resolve: record loop")
+        hk = body_of(txt, r"pub fn verif_resolve_txt_rrs\([^{]*\{", "verif_resolve_txt_rrs (hook)")
+        norm = lambda s: re.sub(r"\s+", " ", s).strip()
+        loop_of = lambda s: norm(s[s.index("let mut txt_records"):])
+        if loop_of(hk).replace("for rr in rrs { let txt = TXT::from_bytes(rr.iter().map(Vec::as_slice).collect()); match txt_record_to_string(&txt)",
+                               "for txt in lookup.iter() { match txt_record_to_string(txt)") != loop_of(rs):
+            raise E("verif_resolve_txt_rrs no longer repeats the record loop of ScionTxtDnsResolver::resolve")
 
-        body = "namespace ScionVerif.Generated.Addr\n"
+        body ="namespace ScionVerif.Generated.Addr\n"
         for k, v in vals.items():
             body += f"def {k} : Nat := {v}\n"
         for k, v in chars.items():
